@@ -597,6 +597,14 @@ class SDRAMPHYModel(Module):
             init           = bank_init[i]) for i in range(nbanks)]
         self.submodules += banks
 
+        # Column address of a Read/Write command: A10 is the auto-precharge flag and never a column bit,
+        # column bits above 9 are on A11 and up.
+        def get_col(phase):
+            if colbits > 10:
+                return Cat(phase.address[:10], phase.address[11:])
+            else:
+                return phase.address
+
         # Connect DFI phases to Banks (CMDs, Write datapath) ---------------------------------------
         for nb, bank in enumerate(banks):
             # Bank activate
@@ -629,7 +637,7 @@ class SDRAMPHYModel(Module):
                 self.comb += writes[np].eq(phase.write)
                 cases[2**np] = [
                     bank_write.eq(phase.bank == nb),
-                    bank_write_col.eq(phase.address)
+                    bank_write_col.eq(get_col(phase))
                 ]
             self.comb += Case(writes, cases)
             self.comb += [
@@ -660,7 +668,7 @@ class SDRAMPHYModel(Module):
                 self.comb += reads[np].eq(phase.read)
                 cases[2**np] = [
                     bank.read.eq(phase.bank == nb),
-                    bank.read_col.eq(phase.address)
+                    bank.read_col.eq(get_col(phase))
             ]
             self.comb += Case(reads, cases)
 
@@ -684,6 +692,6 @@ class SDRAMPHYModel(Module):
             banks_read_data = new_banks_read_data
 
         self.comb += [
-            Cat(*[phase.rddata_valid for phase in phases]).eq(banks_read),
+            Cat(*[phase.rddata_valid for phase in phases]).eq(Replicate(banks_read, len(phases))),
             Cat(*[phase.rddata for phase in phases]).eq(banks_read_data)
         ]
